@@ -112,6 +112,8 @@ where
     Replicated<Boolean>: BooleanProtocols<DZKPUpgraded<C>>,
 {
     let report_pairs = group_report_pairs_ordered(reports);
+    #[cfg(feature = "ipa-verif")]
+    crate::verif_obs::emit("hybrid:pairs", ctx.role() as u64, u64::from(u32::from(ctx.shard_id())), report_pairs.len() as u64);
 
     let chunk_size =
         non_zero_prev_power_of_two(TARGET_PROOF_SIZE / (BK::BITS as usize + V::BITS as usize));
